@@ -56,7 +56,7 @@ RULE = (
     "+-0.05), fit_circuit(method='auto', weight='auto'), plus R(C[RW]) / R(C[RWo]) with the default-fixed Warburg exponent released and "
     "generated at 0.35-0.45 or 0.55-0.65; items whose values lmfit cannot represent to 1e-3 inside the class-"
     "default limit box are excluded from the standard range and judged under a separate key in the wide range. "
-    "Invariant items: 14 circuit shapes (3..14 elements, incl. labels, W/Wo/Ws/"
+    "Invariant items: 17 circuit shapes (2..14 elements, incl. labels, Tlmbq/Tlmnq/Ls whose parameter symbols contain '_', W/Wo/Ws/"
     "Zarc/La/Tlm), per-parameter limit boxes {class default, tight around start, excluding the optimum, one-sided, above/"
     "below the class defaults}, boundary cases (fixed and free start values exactly on a user or class-default limit, e.g. n=1, R=0, "
     "L=0, n=0.5 in [0.5, 1]), random fixed subsets, 0-1% noise, one (method, weight) cell per fit cycling through all "
@@ -108,9 +108,13 @@ SHAPES = [
     ("R(RC)", 2), ("R(RQ)", 2), ("R(RC)(RC)", 3), ("R(RC)(RQ)", 2), ("R(C[RW])", 2), ("RL(RQ)", 2),
     ("R(RC)(RC)(RC)(RC)(RC)", 2), ("RL(RQ)(RC)(RC)(RC)(RC)(RC)", 2),
     ("R(Q[RWo])", 1), ("R(RC)Ws", 1), ("RZarcZarc", 1), ("RLa(RQ)", 1), ("(R[RC])", 1), ("RTlm", 1),
+    # seldom-used elements whose parameter symbols contain an underscore (R_i, R_ct, R_r, R_B, Y_B, n_B): the lmfit names
+    # <symbol>_<index> then contain two underscores.  Kept cheap: noise-free, ~half of the parameters fixed, max_nfev 400.
+    ("RTlmbq", 1), ("RTlmnq", 1), ("RLs", 1),
 ]
-_SYMS = ["Zarc", "Tlm", "Wo", "Ws", "La", "R", "C", "Q", "L", "W"]
-_EXPONENTS = ("n", "a", "b")
+_UNDERSCORE_SHAPES = ("RTlmbq", "RTlmnq", "RLs")
+_SYMS = ["Zarc", "Tlmbq", "Tlmnq", "Tlm", "Wo", "Ws", "La", "Ls", "R", "C", "Q", "L", "W"]
+_EXPONENTS = ("n", "a", "b", "n_B")
 
 
 def parse_shape(s):
@@ -160,6 +164,14 @@ def _true_values(rng, sym):
         return {"L": lu(rng, 1e-7, 1e-4), "n": float(rng.uniform(0.8, 0.99))}
     if sym == "Tlm":
         return {"L": lu(rng, 0.3, 3.0)}
+    if sym == "Tlmbq":
+        return {"R_i": lu(rng, 0.3, 30), "Y": lu(rng, 1e-3, 3e-2), "n": float(rng.uniform(0.6, 0.95)), "Y_B": lu(rng, 1e-3, 0.1),
+                "n_B": float(rng.uniform(0.5, 0.9)), "L": 1.0}
+    if sym == "Tlmnq":
+        return {"R_i": lu(rng, 0.3, 30), "R_ct": lu(rng, 1, 30), "Y": lu(rng, 1e-3, 3e-2), "n": float(rng.uniform(0.6, 0.95)),
+                "R_B": lu(rng, 1, 30), "Y_B": lu(rng, 1e-3, 0.1), "n_B": float(rng.uniform(0.5, 0.9)), "L": 1.0}
+    if sym == "Ls":
+        return {"R_i": lu(rng, 1, 100), "R_r": lu(rng, 0.3, 3), "Y": lu(rng, 1e-3, 0.1), "n": float(rng.uniform(0.6, 0.95)), "d": lu(rng, 0.05, 0.5)}
     raise ValueError(sym)
 
 
@@ -332,7 +344,7 @@ def _gen_inv_item(rng, cell_index):
                              "Z_A": None, "Z_B": None, "Zeta": ["S", fm.E("Q", Y=fm._logu(rng, 1e-4, 1e-2), n=float(rng.uniform(0.7, 0.98)))]})
         lo = float(rng.uniform(-2, 0))
         f_lo, f_hi, ppd = 10.0**lo, 10.0 ** (lo + float(rng.uniform(5, 7))), int(rng.choice([5, 8, 10]))
-        if shp == "RTlm":
+        if shp == "RTlm" or shp in _UNDERSCORE_SHAPES:
             f_hi = min(f_hi, 1e4)
     tl = fm.leaves(truth)
     start = copy.deepcopy(truth)
@@ -343,10 +355,20 @@ def _gen_inv_item(rng, cell_index):
     source = constr[4] if constr else None
     kinds = []
     n_free = 0
+    us = shp in _UNDERSCORE_SHAPES
     for i, leaf in enumerate(sl):
         for name, p in leaf[2].items():
             t = float(tl[i][2][name][0])
             default_fixed = leaf[1] in ("W", "Wo", "Ws") and name == "n"
+            if leaf[1] in ("Tlmbq", "Tlmnq") and name == "L":  # length of the transmission line: fixed by default, released in 20%
+                if rng.random() < 0.2:
+                    p[:] = [float(t * 10.0 ** rng.uniform(-0.2, 0.2)), t / 2, t * 2, False]
+                    kinds.append("tight")
+                    n_free += 1
+                else:
+                    p[:] = [t, "default", "default", True]
+                    kinds.append("default")
+                continue
             if leaf[1] == "Tlm":
                 p[:] = [t, "default", "default", True]
                 kinds.append("default")
@@ -360,7 +382,9 @@ def _gen_inv_item(rng, cell_index):
                 # precondition: the range of the expression over the box of its argument must lie inside the (class-
                 # default) limits of the constrained parameter, otherwise lmfit clips the expression value
                 s, lo, hi, kind = _box(rng, leaf[1], name, t, default_fixed)
-            fixed = bool(default_fixed or rng.random() < 0.3)
+            while us and kind == "unbounded":  # keep the seldom-used elements inside their physical (non-negative) range
+                s, lo, hi, kind = _box(rng, leaf[1], name, t, default_fixed)
+            fixed = bool(default_fixed or rng.random() < (0.5 if us else 0.3))
             if default_fixed and rng.random() < 0.3:  # free the exponent of a Warburg element inside a tight box
                 fixed, lo, hi, kind = False, 0.3, 0.7, "tight"
                 s = float(t + rng.choice([-1, 1]) * rng.uniform(0.02, 0.15))  # released and started off the generating 0.5
@@ -391,7 +415,7 @@ def _gen_inv_item(rng, cell_index):
             if rng.random() < 0.5 and pool:
                 leaf[3] = pool.pop()
                 labels.append(leaf[3])
-    noise = float(rng.choice([0.0, 1e-3, 1e-2]))
+    noise = 0.0 if us else float(rng.choice([0.0, 1e-3, 1e-2]))
     try:
         with warnings.catch_warnings():
             warnings.simplefilter("ignore")
@@ -404,13 +428,15 @@ def _gen_inv_item(rng, cell_index):
     method, weight = CELLS[cell_index % 36]
     r = rng.random()
     num_procs = 1
-    if r < 0.06:  # lists of methods / weights (several fits, best one returned), sometimes through the process pool
+    if r < 0.06 and not us:  # lists of methods / weights (several fits, best one returned), sometimes through the process pool
         method = [method] + [str(x) for x in rng.choice(METHODS, size=2)]
         weight = [weight, str(rng.choice(WEIGHTS))]
         num_procs = int(rng.choice([1, 2]))
     max_nfev = int(rng.choice([-1, -1, -1, 40, 400]))
     if n_el >= 9 and max_nfev < 0:
         max_nfev = 600
+    if us and max_nfev < 0:
+        max_nfev = 400
     item = {
         "kind": "explicit", "recover": False, "shape": shp, "start": start, "f": [float(x) for x in f],
         "Z": [[float(z.real), float(z.imag)] for z in Z], "method": method, "weight": weight, "max_nfev": max_nfev,
@@ -463,6 +489,11 @@ def _blocks_permutations(truth):
                     new.append(q)
             perms = new
     return [[truth[0]] + [kids[i] for i in p] for p in perms]
+
+
+def _us_suffix(params):
+    """Key suffix for elements whose parameter symbols contain an underscore (lmfit names with two underscores)."""
+    return ":underscore-symbols" if any("_" in k for k in params) else ""
 
 
 def check_fit(item):
@@ -580,6 +611,7 @@ def check_fit(item):
     bump("params_bounds_checked", n_params)
     bump("params_fixed_checked", n_fixed)
     bump("fixed_flags_checked", n_flags)
+    bump("underscore_symbol_params_checked", sum(1 for st_ in in_state for k in st_[1] if "_" in k))
     bump("released_default_fixed", n_released)
     bump("params_at_bound", n_active)
     # ---- table == circuit
@@ -600,7 +632,7 @@ def check_fit(item):
                         continue  # latitude: a parameter that carries a constraint expression is reported as not varied
                     df_fixed_expected[(nm, name)] = "Yes" if flag else "No"
                     if bool(row[name].fixed) != bool(flag):
-                        bad("C12/fixed-flag-changed:table", f"table says {nm}.{name} fixed={row[name].fixed}, the circuit passed in has fixed={bool(flag)}")
+                        bad("C12/fixed-flag-changed:table" + _us_suffix(fx_), f"table says {nm}.{name} fixed={row[name].fixed}, the circuit passed in has fixed={bool(flag)}")
             if row is None or set(row.keys()) != set(got.keys()):
                 bad("C12/table-names", f"parameter table entry {nm!r} is {None if row is None else sorted(row)} but the element has {sorted(got)}; table keys {sorted(table)}")
                 continue
@@ -608,7 +640,7 @@ def check_fit(item):
                 tv = row[name].value
                 if not (float(tv) == float(v)):
                     mism += 1
-                    bad("C12/table-mismatch", f"table says {nm}.{name}={float(tv)!r}, returned circuit has {float(v)!r}")
+                    bad("C12/table-mismatch" + _us_suffix(got), f"table says {nm}.{name}={float(tv)!r}, returned circuit has {float(v)!r}")
         if set(table.keys()) != set(names) or len(names) != len(set(names)):
             bad("C12/table-names", f"table keys {sorted(table)} vs element names {sorted(names)}")
         bump("table_values_checked", n_params)
@@ -771,7 +803,7 @@ def finalize(agg):
     if dead:
         inc.append(f"(method, weight) cells that never returned a result: {dead}")
     for name in ("params_fixed_checked", "params_at_bound", "constraints_checked", "table_values_checked", "untouched_checked",
-                 "fixed_flags_checked", "table_fixed_flags_checked", "released_default_fixed", "fixed_on_limit", "fixed_on_limit:lower", "fixed_on_limit:upper", "fixed_on_class_default_limit", "free_on_limit"):
+                 "fixed_flags_checked", "table_fixed_flags_checked", "released_default_fixed", "underscore_symbol_params_checked", "fixed_on_limit", "fixed_on_limit:lower", "fixed_on_limit:upper", "fixed_on_class_default_limit", "free_on_limit"):
         if st.get(name, 0) == 0:
             inc.append(f"{name} == 0: the clause was never exercised")
     rec_all = [r for a in agg["aggs"] for r in (a or [])]
